@@ -218,13 +218,13 @@ def run(facts, res):
                 for (bi, st, v) in status_writes(cb):
                     if v != "Pending" or status_guard(cb, bi, facts) != "Blocked":
                         continue
-                    extra = []
-                    for l in lits_of(cb, bi, facts):
-                        about_status = (l.kind == "variant" and l.adt == STATUS) or \
+                    from ..conds import unaccepted
+
+                    def about_status(l):
+                        return (l.kind == "variant" and l.adt == STATUS) or \
                             (l.kind in ("call", "cmp") and any(status_variant(x) for x in walk(l.term))) or \
                             (l.kind == "variant" and l.variants and l.variants <= {"Ok", "Some", "Continue"})
-                        if not about_status:
-                            extra.append(repr(l))
+                    extra = [repr(l) for l in unaccepted(lits_of(cb, bi, facts), about_status)]
                     res.instance("A4", "refresh: the Blocked->Pending reset depends on the block's status only: %s" % (not extra), cb.loc(st.line))
                     if extra:
                         res.violation("A4", "refresh|reset-under-extra-condition",
